@@ -283,11 +283,16 @@ class Body:
                 for si, s in enumerate(blk["s"]):
                     if s[0] == "a":
                         p = s[1]
+                        if len(p) > 1 and p[1] == "*":
+                            # a store through a pointer/reference does not (re)define the pointer local
+                            continue
                         kind = "assign" if len(p) == 1 else "part"
                         self._defs.setdefault(p[0], []).append((kind, bi, si, s[2]))
                 t = blk["t"]
                 if t[0] == "call":
                     p = t[3]
+                    if len(p) > 1 and p[1] == "*":
+                        continue
                     kind = "call" if len(p) == 1 else "partcall"
                     self._defs.setdefault(p[0], []).append((kind, bi, None, Call(self, bi, t, blk)))
         return self._defs.get(local, [])
